@@ -12,19 +12,38 @@ import (
 	"verif.local/engine/vs"
 )
 
-func concAlphabet() []op {
-	return []op{
-		{kind: "put", addr: 0, c: credC0, cn: "c0"},
-		{kind: "put", addr: 0, c: credC1, cn: "c1"},
-		{kind: "put", addr: 1, c: credC2, cn: "c2"},
-		{kind: "del", addr: 0},
-		{kind: "get", addr: 0},
+// concKinds: the i-th occurrence of a Put in a scenario takes the i-th credential,
+// so that racing Puts to one key are distinguishable in the file.
+var concKinds = []string{"putA", "putB", "delA", "getA"}
+
+var credC3 = cred{Username: "<&>", Password: "ü", RefreshToken: "r"}
+
+func concOps(kinds []string) []op {
+	credsA := []cred{credC0, credC1, credC3}
+	namesA := []string{"c0", "c1", "c3"}
+	credsB := []cred{credC2, credC0, credC1}
+	namesB := []string{"c2", "c0", "c1"}
+	na, nb := 0, 0
+	var out []op
+	for _, k := range kinds {
+		switch k {
+		case "putA":
+			out = append(out, op{kind: "put", addr: 0, c: credsA[na], cn: namesA[na]})
+			na++
+		case "putB":
+			out = append(out, op{kind: "put", addr: 1, c: credsB[nb], cn: namesB[nb]})
+			nb++
+		case "delA":
+			out = append(out, op{kind: "del", addr: 0})
+		case "getA":
+			out = append(out, op{kind: "get", addr: 0})
+		}
 	}
+	return out
 }
 
 func concJobs(th bool) []driver.Job {
 	var out []driver.Job
-	ops := concAlphabet()
 	b := explore.Bounds{Dev: 2}
 	if th {
 		b = explore.Bounds{Dev: 3}
@@ -33,29 +52,33 @@ func concJobs(th bool) []driver.Job {
 	for _, d := range docs() {
 		byName[d.name] = d
 	}
-	for _, dn := range []string{"absent", "entries-unknown-fields", "legacy"} {
-		d := byName[dn]
-		for _, pair := range [][2]string{{"h", "h:5000"}, {"h", "https://h/v1/"}} {
-			for i := 0; i < len(ops); i++ {
-				for j := i; j < len(ops); j++ {
-					for k := j; k < len(ops); k++ {
-						if ops[i].kind == "get" { // three Gets: nothing to race with
-							continue
-						}
-						d, pair := d, pair
-						gs := []op{ops[i], ops[j], ops[k]}
-						var ns []string
-						for _, o := range gs {
-							ns = append(ns, o.str(pair))
-						}
-						name := fmt.Sprintf("conc/%s/%s/%v", d.name, strings.Join(ns, " || "), b)
-						out = append(out, driver.Job{Name: name, Run: func(c *driver.Ctx) {
-							c.Explore(driver.Scenario{
-								Name: name, Bases: []int{0, 1, 2}, Bounds: b,
-								Make: func() (func(), func(*vs.Result) *driver.Fail) { return concRun(c, d, pair, gs, name) },
-							})
-						}})
+	type combo struct {
+		doc  string
+		pair [2]string
+	}
+	combos := []combo{{"absent", [2]string{"h", "h:5000"}}, {"entries-unknown-fields", [2]string{"h", "h:5000"}}, {"legacy", [2]string{"h", "https://h/v1/"}}}
+	if th {
+		combos = append(combos, combo{"absent", [2]string{"h", "https://h/v1/"}}, combo{"entries-unknown-fields", [2]string{"h", "https://h/v1/"}}, combo{"legacy", [2]string{"h", "h:5000"}})
+	}
+	nk := len(concKinds)
+	for _, cb := range combos {
+		d, pair := byName[cb.doc], cb.pair
+		for i := 0; i < nk; i++ {
+			for j := i; j < nk; j++ {
+				for k := j; k < nk; k++ {
+					if concKinds[i] == "getA" { // three Gets: nothing to race with
+						continue
 					}
+					d, pair := d, pair
+					kinds := []string{concKinds[i], concKinds[j], concKinds[k]}
+					gs := concOps(kinds)
+					name := fmt.Sprintf("conc/%s/%s,%s/%s/%v", d.name, pair[0], pair[1], strings.Join(kinds, "+"), b)
+					out = append(out, driver.Job{Name: name, Run: func(c *driver.Ctx) {
+						c.Explore(driver.Scenario{
+							Name: name, Bases: []int{0, 1, 2}, Bounds: b,
+							Make: func() (func(), func(*vs.Result) *driver.Fail) { return concRun(c, d, pair, gs, name) },
+						})
+					}})
 				}
 			}
 		}
@@ -91,7 +114,11 @@ func concRun(c *driver.Ctx, d *doc, pair [2]string, gs []op, name string) (func(
 	m0 := newModel(d)
 	s0 := statOf(path)
 	results := make([]concRes, len(gs))
-	desc := fmt.Sprintf("document %s: %s\n%s", d.name, clip(d.text), name)
+	var ns []string
+	for gi, o := range gs {
+		ns = append(ns, fmt.Sprintf("g%d: %s", gi, o.str(pair)))
+	}
+	desc := fmt.Sprintf("document %s: %s\n%s", d.name, clip(d.text), strings.Join(ns, "\n"))
 	body := func() {
 		if err != nil {
 			return
@@ -194,8 +221,11 @@ func concRun(c *driver.Ctx, d *doc, pair [2]string, gs []op, name string) (func(
 			c.Count("leftover_files_after_success", int64(n))
 		}
 		c.Outcome(driver.Hash(name, string(b), strings.Join(rs, ",")))
-		if len(res.Trace) > 0 {
-			c.Nontriv(driver.Hash(name, fmt.Sprint(res.Choices())))
+		for _, ch := range res.Choices() {
+			if ch != 0 {
+				c.Nontriv(driver.Hash(name, fmt.Sprint(res.Choices())))
+				break
+			}
 		}
 		return nil
 	}
